@@ -1866,6 +1866,13 @@ export class AnyOfDiscriminatedRuntype extends BaseRuntype {
     this.ensureContextualDefinition(syntheticRefName, runtype, ctx);
     return printingContext.getRef(syntheticRefName);
   }
+  // the mapping is a plain object: only own entries are variants ("constructor", "__proto__", "toString" are not)
+  private lookupMapping(d: unknown): Runtype | undefined {
+    if (typeof d !== "string" || !Object.prototype.hasOwnProperty.call(this.mapping, d)) {
+      return undefined;
+    }
+    return this.mapping[d];
+  }
   validate(ctx: ValidateContext, input: unknown): boolean {
     if (typeof input !== "object" || input == null) {
       return false;
@@ -1874,7 +1881,7 @@ export class AnyOfDiscriminatedRuntype extends BaseRuntype {
     if (d == null) {
       return false;
     }
-    const v = this.mapping[d];
+    const v = this.lookupMapping(d);
     if (v == null) {
       return false;
     }
@@ -1882,7 +1889,7 @@ export class AnyOfDiscriminatedRuntype extends BaseRuntype {
     return v.validate(ctx, input);
   }
   parseAfterValidation(ctx: ParseContext, input: any): unknown {
-    const parser = this.mapping[input[this.discriminator]];
+    const parser = this.lookupMapping(input[this.discriminator]);
     if (parser == null) {
       throw new Error(
         "INTERNAL ERROR: Missing parser for discriminator " + safeStringify(input[this.discriminator]),
@@ -1902,7 +1909,7 @@ export class AnyOfDiscriminatedRuntype extends BaseRuntype {
     if (d == null) {
       return buildError(ctx, "expected discriminator key " + JSON.stringify(this.discriminator), input);
     }
-    const v = this.mapping[d];
+    const v = this.lookupMapping(d);
     if (v == null) {
       pushPath(ctx, this.discriminator);
       const errs = buildError(
